@@ -194,6 +194,17 @@ fn main() {
         // C20: errors locate themselves
         if want("C20") { if let Err((off, l, c)) = &lazy { if *off > d.len() || (*l, *c) != line_col(d, *off) { report("C20", format!("error for {} reports offset {} line {} column {}, expected line/column {:?}", show(d), off, l, c, line_col(d, *off))); } } }
         if want("C20") { if let Some((off, l, c)) = verr { if off > d.len() { report("C20", format!("from_str::<Value>({}) error reports offset {} beyond the input length {}", show(d), off, d.len())); } if (l, c) != line_col(d, off) { report("C20", format!("from_str::<Value>({}) error reports offset {} line {} column {}, expected line/column {:?}", show(d), off, l, c, line_col(d, off))); } } }
+        // C20 through the non-serde entry points (get, iterators): the same demand on every error they return
+        if want("C20") {
+            let chk = |what: &str, e: &sonic_rs::Error| { let (off, l, c) = (e.offset(), e.line(), e.column()); if off > d.len() || (l, c) != line_col(d, off) { report("C20", format!("{what} over {}: error `{}` reports offset {} line {} column {}, expected line/column {:?}", show(d), e.to_string().lines().next().unwrap_or(""), off, l, c, line_col(d, off.min(d.len())))); } };
+            if let Ok(txt) = std::str::from_utf8(d) {
+                if let Err(e) = sonic_rs::get(txt, &sonic_rs::pointer![0]) { if !e.is_not_found() { chk("get([0])", &e); } }
+                if let Err(e) = sonic_rs::get(txt, &sonic_rs::pointer!["a"]) { if !e.is_not_found() { chk("get([\"a\"])", &e); } }
+                if let Err(e) = sonic_rs::get(txt, &sonic_rs::pointer![1, "a", 0]) { if !e.is_not_found() { chk("get([1,\"a\",0])", &e); } }
+                for x in sonic_rs::to_array_iter(txt) { if let Err(e) = x { chk("to_array_iter", &e); } }
+                for x in sonic_rs::to_object_iter(txt) { if let Err(e) = x { chk("to_object_iter", &e); } }
+            }
+        }
         if want("C02") && val_ok != ok && !ok { report("C02", format!("from_str::<Value>({}) accepted malformed text", show(d))); }
         // C03: the embedded (copy-out) parse of a value equals the whole-input parse
         if want("C03") && ok {
